@@ -16,6 +16,14 @@ Definition toklen (m : N) : nat :=
   | 1%N => 1 | 2%N => 5 | 3%N => 5 | 4%N => 6 | 5%N => 6 | 6%N => 3 | 7%N => 5 | 8%N => 7 | 9%N => 3 | 10%N => 5 | 11%N => 5 | _ => 0
   end.
 
+Lemma toklen_ids : forall m, 1 <= toklen m -> In m [1; 2; 3; 4; 5; 6; 7; 8; 9; 10; 11]%N.
+Proof.
+  intros m H. unfold toklen in H.
+  destruct m as [|p]; [lia|].
+  destruct p as [p|p|]; try destruct p as [p|p|]; try destruct p as [p|p|]; try destruct p as [p|p|];
+    try lia; cbn; tauto.
+Qed.
+
 Section FinderLen.
   Variables (first_chars : list N) (single : N) (groups : list (list (N * list N))) (content : list N).
 
@@ -665,23 +673,81 @@ Section Safety.
   Lemma step_post : forall st, Inv st -> ps_fm st <> 0%N -> post (stepped st) (step numf w content st).
   Proof.
     intros st HI Hm. unfold step.
-    destruct (N.eqb_spec (ps_fm st) tpp_LineEndID) as [E|_]; [apply then_next_post, do_line_end_post; assumption|].
-    destruct (N.eqb_spec (ps_fm st) tpp_VariableID) as [E|_]; [apply do_var_post; [intros v H; exact H|exact HI|rewrite E; reflexivity]|].
-    destruct (N.eqb_spec (ps_fm st) tpp_RawVariableID) as [E|_]; [apply do_var_post; [intros v H; exact H|exact HI|rewrite E; reflexivity]|].
-    destruct (N.eqb_spec (ps_fm st) tpp_MathID) as [E|_]; [apply do_math_post; assumption|].
-    destruct (N.eqb_spec (ps_fm st) tpp_SuperVariableID) as [E|_]; [apply do_svar_post; assumption|].
-    destruct (N.eqb_spec (ps_fm st) tpp_InLineIfID) as [E|_]; [apply do_iif_post; assumption|].
-    destruct (N.eqb_spec (ps_fm st) tpp_LoopID) as [E|_]; [apply do_loop_post; assumption|].
-    destruct (N.eqb_spec (ps_fm st) tpp_LoopEndID) as [E|_]; [apply then_next_post, do_loop_end_post; assumption|].
-    destruct (N.eqb_spec (ps_fm st) tpp_IfID) as [E|_]; [apply do_if_post; assumption|].
-    destruct (N.eqb_spec (ps_fm st) tpp_IfEndID) as [E|_]; [apply then_next_post, do_if_end_post; assumption|].
+    destruct (N.eqb_spec (ps_fm st) tpp_LineEndID) as [E|N1]; [apply then_next_post, do_line_end_post; assumption|].
+    destruct (N.eqb_spec (ps_fm st) tpp_VariableID) as [E|N2]; [apply do_var_post; [intros v H; exact H|exact HI|rewrite E; reflexivity]|].
+    destruct (N.eqb_spec (ps_fm st) tpp_RawVariableID) as [E|N3]; [apply do_var_post; [intros v H; exact H|exact HI|rewrite E; reflexivity]|].
+    destruct (N.eqb_spec (ps_fm st) tpp_MathID) as [E|N4]; [apply do_math_post; assumption|].
+    destruct (N.eqb_spec (ps_fm st) tpp_SuperVariableID) as [E|N5]; [apply do_svar_post; assumption|].
+    destruct (N.eqb_spec (ps_fm st) tpp_InLineIfID) as [E|N6]; [apply do_iif_post; assumption|].
+    destruct (N.eqb_spec (ps_fm st) tpp_LoopID) as [E|N7]; [apply do_loop_post; assumption|].
+    destruct (N.eqb_spec (ps_fm st) tpp_LoopEndID) as [E|N8]; [apply then_next_post, do_loop_end_post; assumption|].
+    destruct (N.eqb_spec (ps_fm st) tpp_IfID) as [E|N9]; [apply do_if_post; assumption|].
+    destruct (N.eqb_spec (ps_fm st) tpp_IfEndID) as [E|N10]; [apply then_next_post, do_if_end_post; assumption|].
     destruct (N.eqb_spec (ps_fm st) tpp_ElseID) as [E|E11].
     - pbind (fun r : pstate * bool => if snd r then rested st (fst r) else stepped st (fst r)); [apply do_else_post; assumption|].
       intros [st1 b] H. cbn [fst snd] in *. destruct b; [apply then_next_post; exact H|exact H].
     - (* no other match id has a token *)
       exfalso. destruct (inv_parts st HI Hm) as (_ & _ & H1 & _).
-      unfold toklen in H1.
-      destruct (ps_fm st) as [|[[[[|[]|]|[[]|[]|]|]|[[|[]|]|[[]|[]|]|]|]|[[[|[]|]|[[]|[]|]|]|[[|[]|]|[[]|[]|]|]|]|]]; try lia;
-        match goal with H : _ <> _ |- _ => try (apply H; reflexivity) end; try contradiction.
+      apply toklen_ids in H1. cbn in H1.
+      repeat (destruct H1 as [H1|H1]; [symmetry in H1; contradiction|]). exact H1.
+  Qed.
+
+  (* ---- the main loop: the fuel (length + 2) is never exhausted ---- *)
+  Lemma main_loop_post : forall fuel st, Inv st ->
+    (ps_fm st <> 0%N -> len - ps_fo st < fuel) ->
+    post (fun st' => Inv st' /\ ps_fm st' = 0%N) (main_loop numf w content fuel st).
+  Proof.
+    intros fuel; induction fuel as [|f IH]; intros st HI Hf.
+    - cbn [main_loop]. destruct (N.eqb_spec (ps_fm st) 0) as [E|E]; [cbn; auto|specialize (Hf E); lia].
+    - cbn [main_loop]. destruct (N.eqb_spec (ps_fm st) 0) as [E|E]; [cbn; auto|]. specialize (Hf E).
+      pbind (stepped st); [apply step_post; assumption|].
+      intros st' (HI' & Hle & Hadv). apply IH; [exact HI'|].
+      intros Hn. destruct Hadv as [Hz|Hlt]; [contradiction|].
+      destruct (inv_parts st' HI' Hn) as (Hfo' & _). lia.
+  Qed.
+
+  Lemma parse_state_post : post (fun st' => Inv st' /\ ps_fm st' = 0%N) (parse_state numf w content).
+  Proof.
+    unfold parse_state.
+    pbind (stepok 0); [apply good_post, fnext_good|]. intros mo Hmo.
+    apply main_loop_post.
+    - split; [eapply stepok_finok; exact Hmo|]. cbn [ps_fo ps_stack ps_cur]. repeat split; constructor.
+    - cbn [ps_fo ps_fm]. intros _. lia.
+  Qed.
+
+  (* C01, parser: for every text, width and number scanner the parser model returns a tree, or stops
+     with the one error this development does not exclude: EOob 10, an out-of-range read by the
+     IsEqual of checkLoopVariable.  In particular: no other out-of-bounds read of the text (the
+     Finder, the skip loops, the word tests, parseIfCase, parseLoopAttributes, the inline-if attribute
+     scanner, getOperation's one-unit look-ahead, isExpression, TrimLeft/TrimRight, parseValue), no
+     Last() of an empty array, no tag record read as another kind, no unsigned subtraction below zero,
+     and no fuel exhaustion (termination: at most length + 2 iterations of the main loop). *)
+  Theorem parse_gen_safe_partial : forall e, parse_gen numf w content = Error e -> e = EOob 10.
+  Proof.
+    intros e H. unfold parse_gen in H.
+    pose proof parse_state_post as P. destruct (parse_state numf w content) as [st|e']; cbn in *.
+    - discriminate H.
+    - injection H as <-. exact P.
   Qed.
 End Safety.
+
+Theorem parse_safe_partial : forall w content e, parse_model w content = Error e -> e = EOob 10.
+Proof. intros w content e. apply parse_gen_safe_partial. Qed.
+
+(* the errors excluded outright *)
+Corollary parse_no_fuel : forall w content, parse_model w content <> Error EFuel.
+Proof. intros w content H. apply parse_safe_partial in H. discriminate H. Qed.
+Corollary parse_no_empty_last : forall w content s, parse_model w content <> Error (EEmpty s).
+Proof. intros w content s H. apply parse_safe_partial in H. discriminate H. Qed.
+Corollary parse_no_kind_confusion : forall w content s, parse_model w content <> Error (EKind s).
+Proof. intros w content s H. apply parse_safe_partial in H. discriminate H. Qed.
+Corollary parse_no_negative : forall w content s, parse_model w content <> Error (ENeg s).
+Proof. intros w content s H. apply parse_safe_partial in H. discriminate H. Qed.
+Corollary parse_no_oob_but_10 : forall w content s, s <> 10%N -> parse_model w content <> Error (EOob s).
+Proof. intros w content s Hs H. apply parse_safe_partial in H. injection H as H. contradiction. Qed.
+
+(* non-vacuity: a text on which every case of the switch runs and a tree comes out *)
+Example parse_example :
+  exists l, parse_model 0 [123;118;97;114;58;97;125; 60;108;111;111;112;32;118;97;108;117;101;61;34;118;34;62;
+                           123;118;97;114;58;118;125; 60;47;108;111;111;112;62]%N = Ok l /\ length l = 2.
+Proof. vm_compute. eexists; split; reflexivity. Qed.
